@@ -66,9 +66,16 @@ Definition coupled (sp : dspec) (sv : valuation) : bool := forallb (fun ab => im
 Definition arrow_ok (sp : dspec) (a b : string) : bool :=
   orb (String.eqb a b) (existsb (fun ab => andb (String.eqb (fst ab) a) (String.eqb (snd ab) b)) (s_arrows sp)).
 
+(* selectors that are not defined inside the method but are known to pick agents in a given state: (disease, method, selector, required flag).
+   Syphilis.step_state: `congenital = self.ti_congenital == ti` is only ever scheduled (set_congenital) for agents infected in utero, who are
+   still flagged susceptible. *)
+Definition sel_pre : list (string * string * string * string) := [("Syphilis", "step_state", "congenital", "susceptible")].
+Definition sel_pre_items (d m : string) : list sitem :=
+  flat_map (fun q => let '(d', m', sel, f) := q in if andb (String.eqb d d') (String.eqb m m') then [SelDef sel [[f]] sel] else []) sel_pre.
 (* set_prognoses(uids): the new cases satisfy the precondition (they were susceptible: C12) *)
 Definition method_script (sp : dspec) (m : string) : list sitem :=
-  if String.eqb m "set_prognoses" then SelDef "uids" (map (fun f => [f]) (s_uids_pre sp)) "uids" :: script_gen (s_name sp) m else script_gen (s_name sp) m.
+  sel_pre_items (s_name sp) m ++
+  (if String.eqb m "set_prognoses" then SelDef "uids" (map (fun f => [f]) (s_uids_pre sp)) "uids" :: script_gen (s_name sp) m else script_gen (s_name sp) m).
 
 (* exhaustive check of one living-agent method (step_state / set_prognoses): validity and arrows preserved *)
 Definition check_live (sp : dspec) (m : string) : bool :=
@@ -103,3 +110,14 @@ Definition spec_Gonorrhea := mkSpec "Gonorrhea" ["susceptible"; "infected"; "sym
   [("symptomatic", "infected")] [("susceptible", "infected"); ("infected", "susceptible")] ["susceptible"] [("symp_uids", "uids")] false.
 Definition spec_HIV := mkSpec "HIV" ["susceptible"; "infected"; "on_art"] ["susceptible"; "infected"] []
   [("susceptible", "infected")] ["susceptible"] [] false.
+(* Syphilis: one stage at a time; several due transitions may be taken within one call (the arrows are closed under composition);
+   nothing leads back to susceptible, nothing leaves tertiary or congenital *)
+Definition spec_Syphilis := mkSpec "Syphilis"
+  ["susceptible"; "exposed"; "primary"; "secondary"; "latent_temp"; "latent_long"; "tertiary"; "congenital"]      (* the partition flags; infected / ever_exposed / immune are book-keeping, not compartments *)
+  ["susceptible"; "exposed"; "primary"; "secondary"; "latent_temp"; "latent_long"; "tertiary"; "congenital"] []
+  [("susceptible", "exposed"); ("susceptible", "congenital");
+   ("exposed", "primary"); ("exposed", "secondary"); ("exposed", "latent_temp"); ("exposed", "latent_long"); ("exposed", "tertiary");
+   ("primary", "secondary"); ("primary", "latent_temp"); ("primary", "latent_long"); ("primary", "tertiary");
+   ("secondary", "latent_temp"); ("secondary", "latent_long"); ("secondary", "tertiary");
+   ("latent_temp", "secondary"); ("latent_temp", "latent_long"); ("latent_temp", "tertiary");
+   ("latent_long", "tertiary")] ["susceptible"] [] false.
